@@ -18,15 +18,20 @@ Record run_case := { r_phases : list (list op); r_obs : run_obs }.
    once (their grace periods expire together) while s_workers goroutines keep
    running  Create n; Get n; Dump; Delete n  (every fifth round  Create n;
    Get n; Close n  on a fresh name) on names of their own, across the expiry;
-   then everything is waited out and Dump() is recorded. It checks the
-   atomicity assumption of the LTS: that API steps and Fire steps really
+   then everything is waited out and Dump() is recorded. Meanwhile s_races
+   RACING ROUNDS run: in each, all workers are released together to CreatePipe
+   the SAME absent name (pipe types std, file, and a type with a slow
+   constructor); then Get, and one Delete (or Close) by the harness. It checks
+   the atomicity assumption of the LTS: that API steps and Fire steps really
    exclude each other in the code. *)
 Inductive storm_obs :=
 | StormDied                                    (* the process died (Go runtime fatal error, panic) or hung *)
 | StormSurvived (unexpected : bool)            (* some call returned what a sequential run could not *)
+                (dup_rounds : N)               (* racing rounds in which not exactly one CreatePipe won
+                                                  (or a second pipe was constructed, or Get/Delete failed) *)
                 (final : list (N * N)).        (* Dump() after everything has been waited out *)
 
-Record storm_case := { s_pipes : N; s_workers : N; s_obs : storm_obs }.
+Record storm_case := { s_pipes : N; s_workers : N; s_races : N; s_obs : storm_obs }.
 
 Record case := { c_runs : list run_case; c_storms : list storm_case }.
 
@@ -57,11 +62,13 @@ Definition run_agree (r : run_case) : bool :=
   end.
 
 (* every interleaving of the storm's steps leaves only the null pipe: each name
-   is created and then deleted, or closed and fired (Proof: storm_round_restores) *)
+   is created and then deleted, or closed and fired (Proof: storm_round_restores),
+   and of k racing Create n on an absent n exactly the first to take its step wins
+   (Proof: create_race_one_winner) *)
 Definition storm_agree (s : storm_case) : bool :=
   match s_obs s with
   | StormDied => false
-  | StormSurvived unexpected d => negb unexpected && leqb pair_eqb (reg st0) d
+  | StormSurvived unexpected dup d => negb unexpected && N.eqb dup 0 && leqb pair_eqb (reg st0) d
   end.
 
 Definition agree (c : case) : bool :=
@@ -134,7 +141,9 @@ Definition run_ok (r : run_case) : bool :=
 Definition storm_ok (s : storm_case) : bool :=
   match s_obs s with
   | StormDied => false
-  | StormSurvived unexpected d => negb unexpected && names_match [0%N] d
+  | StormSurvived unexpected dup d =>
+      (* names stay unique under contention: exactly one winner per racing round *)
+      negb unexpected && N.eqb dup 0 && names_match [0%N] d
   end.
 
 Definition spec_ok (c : case) : bool :=
